@@ -52,6 +52,7 @@ fn mut_script_strategy() -> BoxedStrategy<Vec<BOp>> {
     let bop = prop_oneof![
         8 => (any::<u16>(), vec(hop_mut_strategy(), 1..7)).prop_map(|(sel, script)| BOp::Stream { sel, script }),
         2 => vec(hop_mut_strategy(), 1..5).prop_map(|script| BOp::AllStreams { script }),
+        1 => (any::<u16>(), 0u8..6, vec(hop_mut_strategy(), 1..5)).prop_map(|(sel, k, script)| BOp::IterWhileStream { sel, k, script }),
         3 => (any::<u16>(), vec(hop_mut_strategy(), 0..4), any::<u8>(), vec(hop_mut_strategy(), 1..6)).prop_map(|(sel, pre, how, post)| BOp::StaleHandle { sel, pre, how, post }),
         5 => (any::<u16>(), any::<u8>(), d()).prop_map(|(parent, name, data)| BOp::CreateStream { parent, name, data }),
         2 => (any::<u16>(), any::<u8>()).prop_map(|(parent, name)| BOp::CreateStorage { parent, name }),
